@@ -228,8 +228,15 @@ def depth_exec(stmts, halo, lit, fine, env=None):
     return env
 
 
+
+PREDICATES = [
+    ('psyclone.domain.lfric.lfric_loop.LFRicLoop', '_halo_read_access', False),
+]
+
 def check(idx, run):
     run.explanation = __doc__
+    from sa.guards import check_predicates
+    check_predicates(idx, run, "C22.R5", PREDICATES)
     cls = idx.get_class("psyclone.domain.lfric.lfric_loop.LFRicLoop")
     func = cls.methods.get("gen_mark_halos_clean_dirty")
     if func is None:
